@@ -105,6 +105,28 @@ CHECKS = {
              'types and longer histories are validated by TLC.',
         design_ref='DESIGN.md section 3 (C15)',
         note='Trusts: TLC; complete types are opaque strings here (splitting is C19); standard DBus interfaces filtered.'),
+    'C06': dict(
+        technique='TLA+ spec AuthServer.tla (finite server automaton, stub and real mechanism semantics) model-checked by '
+                  'TLC; full graph replayed on a real BusProtocol; recorded line streams validated by TLC',
+        text='The automaton is finite, so TLC covers all line sequences of any length (Safety: authenticated only after an '
+             'accepting mechanism and BEGIN; rejection limit; close rules; wrong cookie never accepted; cookie lifecycle). Every '
+             'edge, all paths to depth 3 (4), long random walks and coalesced reads (several lines, NUL byte and post-close '
+             'traffic in one read) are replayed on a real BusProtocol/BusAuthenticator with scripted stub mechanisms and with '
+             'the real EXTERNAL / DBUS_COOKIE_SHA1 (temporary keyring, independently computed responses) / ANONYMOUS '
+             'mechanisms; random line streams split across reads are validated by TLC.',
+        design_ref='DESIGN.md section 3 (C06)',
+        note='Trusts: TLC; fake SO_PEERCRED; exceptions escaping dataReceived are projected as close.'),
+    'C07': dict(
+        technique='TLA+ specs AuthClient.tla (finite client automaton) and AuthPair.tla (client x reference server, liveness '
+                  'under fairness) model-checked by TLC; graphs replayed on a real DBusClientConnection',
+        text='TLC explores the client automaton completely (UNIX / non-UNIX transport, cookie readable or not): BEGIN only '
+             'after a valid OK and an answered descriptor negotiation, mechanisms offered once in preference order, never '
+             'silent, closes only for a reason; the composition with a reference server completes for every accepted subset '
+             '(liveness). Every edge, all paths to depth 4 (6) and every pair behaviour are replayed on a real client (Hello '
+             'must follow BEGIN, nothing binary before); the real built-in bus is used as peer on both transports; random line '
+             'streams split across reads are validated by TLC.',
+        design_ref='DESIGN.md section 3 (C07)',
+        note='Trusts: TLC; HOME is pointed at a scratch keyring; exceptions escaping dataReceived are projected as close.'),
 }
 
 NOT_YET = 'check not built yet (build in progress; see DESIGN.md section 6)'
